@@ -53,17 +53,22 @@ where
         if self.q_vals.len() < 2 {
             return;
         }
-        let mut x: Vec<T> = vec![T::zero(); self.q_vals.len()];
-        let mut y: Vec<T> = vec![T::zero(); self.q_vals.len()];
-        for count in 1..self.q_vals.len() {
-            x[count] = *self.q_vals.get(self.q_vals.len() - count).unwrap();
-            y[count] = -T::from(count).expect("can convert");
+        // x[1] is the newest value, x[len] the oldest
+        let len = self.q_vals.len();
+        let mut x: Vec<T> = vec![T::zero(); len + 1];
+        for count in 1..=len {
+            x[count] = *self.q_vals.get(len - count).unwrap();
         }
 
         let mut num = T::zero();
-        for count in 2..self.q_vals.len() {
-            for k in 1..count - 1 {
-                num = num - ((x[count] - x[k]).signum());
+        for count in 2..=len {
+            for k in 1..count {
+                let diff = x[count] - x[k];
+                if diff > T::zero() {
+                    num = num - T::one();
+                } else if diff < T::zero() {
+                    num = num + T::one();
+                }
             }
         }
 
